@@ -320,27 +320,34 @@ def check(idx: Index, rep: Report, tier: str) -> str:
     g = dict((o, d) for o, d in table).get("CmpfOp")
     if g is None:
         raise AnalysisError("run_cmpf not found")
-    t = unparse(g.node)
-    if "o = not isnan(x) and (not isnan(y))" not in t or "u = isnan(x) or isnan(y)" not in t or "x = args[0]" not in t or "y = args[1]" not in t:
-        raise AnalysisError("run_cmpf: ordered/unordered flags not recognised")
+    gcfg = CFG(g.node)
+    argsn = g.node.args.args[-1].arg
+    A, B = f"{argsn}[0]", f"{argsn}[1]"
+    O, U = f"not isnan({A}) and (not isnan({B}))", f"isnan({A}) or isnan({B})"
+    canon_ = lambda t_: unparse(ast.parse(t_, mode="eval").body)
     fcases = {}
     for m in [n for n in walk_local(g.node) if isinstance(n, ast.Match)]:
         for c in m.cases:
             if isinstance(c.pattern, ast.MatchValue) and isinstance(c.pattern.value, ast.Constant):
                 rets = [s for s in c.body if isinstance(s, ast.Return)]
                 if rets:
-                    fcases[c.pattern.value.value] = unparse(rets[0].value.elts[0] if isinstance(rets[0].value, ast.Tuple) else rets[0].value)
+                    e_ = rets[0].value.elts[0] if isinstance(rets[0].value, ast.Tuple) else rets[0].value
+                    # the returned expression with the locals (operands, ordered / unordered flags) replaced by their definitions
+                    fcases[c.pattern.value.value] = canon_(resolved_text(gcfg, e_, gcfg.node_of(rets[0])))
+    if not fcases:
+        raise AnalysisError("run_cmpf: dispatch on the predicate not recognised")
     for k, mn in enumerate(cmpf):
         if mn == "false":
             want = "False"
         elif mn == "true":
             want = "True"
         elif mn == "ord":
-            want = "o"
+            want = O
         elif mn == "uno":
-            want = "u"
+            want = U
         else:
-            want = f"x {CMP_OP[mn[1:]]} y {'and o' if mn[0] == 'o' else 'or u'}"
+            want = f"{A} {CMP_OP[mn[1:]]} {B} {'and (' + O + ')' if mn[0] == 'o' else 'or (' + U + ')'}"
+        want = canon_(want)
         inst = f"cmpf:{k}:{mn}"
         if fcases.get(k) == want:
             r3.ok(inst, f"{g.loc} {mn}: {want}")
